@@ -734,6 +734,12 @@ def unary(interp, op, v):
             return ~v
         if isinstance(v, (SInt, SBool)):
             return mk_int(-zint(v) - 1)
+    if isinstance(v, Obj):
+        nm = {ast.USub: '__neg__', ast.UAdd: '__pos__',
+              ast.Invert: '__invert__'}[op]
+        m, _ = v.cls.lookup(nm)
+        if m is not None:
+            return interp.call(m, [v], {})
     if v is None or isinstance(v, (str, bytes, SBytes)):
         interp.throw(TypeError, 'bad operand type for unary %s'
                      % op.__name__)
@@ -990,6 +996,12 @@ def getitem(interp, o, k):
                 if x is k:
                     return o[x]
             if not o:
+                interp.throw(KeyError, k)
+            if all(not is_symbolic(x) for x in o) and len(o) <= 64:
+                # finite case split over the concrete keys
+                for x in list(o):
+                    if interp.truth(py_eq(interp, k, x)):
+                        return o[x]
                 interp.throw(KeyError, k)
             raise Unsupported('dict lookup with symbolic key')
         try:
